@@ -481,6 +481,15 @@ func (g *Gate) Release(p *parkedCall) {
 	close(p.done)
 }
 
+// ReleaseLost executes the call and then answers it with a connection error:
+// the request reached the node, the reply did not reach the caller.
+func (g *Gate) ReleaseLost(p *parkedCall) {
+	g.remove(p)
+	p.run()
+	p.fail()
+	close(p.done)
+}
+
 // Fail answers a parked call with a connection error without executing it.
 func (g *Gate) Fail(p *parkedCall) {
 	g.remove(p)
